@@ -78,6 +78,33 @@ func newDsys() *dsys {
 	q := &memberlist.TransmitLimitedQueue{RetransmitMult: 1, NumNodes: func() int { return 1 }}
 	return &dsys{st: distributed.NewState(1, q, audit.NoneRecorder()), q: q}
 }
+func (d *dsys) retained() string {
+	var r []string
+	ms, _ := d.st.Topics().Get([]byte("#"))
+	for _, m := range ms {
+		r = append(r, string(m.Publish.Topic)+"="+string(m.Publish.Payload))
+	}
+	return sortedJoin(r)
+}
+
+// mirrorView: what a second node lists after receiving everything this node queued (plus extra payloads)
+func (d *dsys) mirrorView(extra ...[]byte) string {
+	m := newDsys()
+	for _, e := range extra {
+		m.st.Distributor().NotifyMsg(e)
+	}
+	for {
+		b := d.q.GetBroadcasts(0, 1<<24)
+		if len(b) == 0 {
+			break
+		}
+		for _, x := range b {
+			m.st.Distributor().NotifyMsg(x)
+		}
+	}
+	return m.view() + " retained[" + m.retained() + "]"
+}
+
 func (d *dsys) view() string {
 	var ss, subs []string
 	for _, s := range d.st.SessionMetadatas().All() {
@@ -312,6 +339,83 @@ func scenarios() []*Scenario {
 		},
 		Observe: func(s any) string { return s.(*dsys).view() },
 	})
+	// (6c) concurrent local writes to one retained topic while a newer remote copy is merged: what the node keeps
+	// must be what a node fed with its broadcasts keeps
+	remoteRetained := func() []byte {
+		ev := &api.StateBroadcastEvent{RetainedMessages: []*api.RetainedMessage{{Publish: &packet.Publish{Header: &packet.Header{}, Topic: []byte("m/t"), Payload: []byte("z")}, LastAdded: 1_000_000 + 50}}}
+		b, _ := proto.Marshal(ev)
+		return b
+	}()
+	out = append(out, &Scenario{
+		Name: "distributed: topics.Set(m/t,x) || topics.Set(m/t,y);topics.Delete(m/t) || MergeRemoteState(retained m/t=z)",
+		New:  func() any { clockTick.Store(0); return newDsys() },
+		Threads: [][]Op{
+			{{"Set(m/t,x)", func(s any) string {
+				return errs(s.(*dsys).st.Topics().Set(&packet.Publish{Header: &packet.Header{}, Topic: []byte("m/t"), Payload: []byte("x")}))
+			}}},
+			{{"Set(m/t,y)", func(s any) string {
+				return errs(s.(*dsys).st.Topics().Set(&packet.Publish{Header: &packet.Header{}, Topic: []byte("m/t"), Payload: []byte("y")}))
+			}},
+				{"Set(m/u,w)", func(s any) string {
+					return errs(s.(*dsys).st.Topics().Set(&packet.Publish{Header: &packet.Header{}, Topic: []byte("m/u"), Payload: []byte("w")}))
+				}}},
+			{{"Merge(m/t=z)", func(s any) string { s.(*dsys).st.Distributor().MergeRemoteState(remoteRetained, false); return "" }}},
+		},
+		Observe: func(s any) string {
+			d := s.(*dsys)
+			own := "retained[" + d.retained() + "]"
+			mirror := d.mirrorView(remoteRetained)
+			if !strings.HasSuffix(mirror, own) {
+				return "DIVERGED origin " + own + " vs node fed with its broadcasts " + mirror
+			}
+			return "converged " + own
+		},
+	})
+	// (2b) a pool nobody has used yet
+	out = append(out, &Scenario{
+		Name: "idpool: fresh pool, Get || Get || Get;Put",
+		New:  func() any { return wasp.VerifNewMIDPool(0, 4) },
+		Threads: [][]Op{
+			{{"Get", func(s any) string { return fmt.Sprint(s.(wasp.VerifMIDPool).Get()) }}},
+			{{"Get", func(s any) string { return fmt.Sprint(s.(wasp.VerifMIDPool).Get()) }}},
+			{{"Get", func(s any) string { return fmt.Sprint(s.(wasp.VerifMIDPool).Get()) }},
+				{"Put(0)", func(s any) string { s.(wasp.VerifMIDPool).Put(0); return "" }}},
+		},
+		// which thread gets which identifier is free; what counts is that they are distinct and in range
+		Observe: func(s any) string {
+			var free []string
+			for i := 0; i < 8; i++ {
+				v := s.(wasp.VerifMIDPool).Get()
+				if v < 0 || v > 4 {
+					break
+				}
+				free = append(free, fmt.Sprint(v))
+			}
+			return fmt.Sprintf("%d still free", len(free))
+		},
+	})
+	// (3c) two sweeps at once
+	out = append(out, &Scenario{
+		Name: "ack.Queue: [s/1,s/2 @T; s/3,s/4 @T+3s] Expire(T+2s) || Expire(T+6s) || Ack(s/3)",
+		New: func() any {
+			a := &ackSys{q: ack.NewQueue()}
+			a.q.Insert("s", pub1(1), T0, a.cb("s/1"))
+			a.q.Insert("s", pub1(2), T0, a.cb("s/2"))
+			a.q.Insert("s", pub1(3), T0.Add(3*time.Second), a.cb("s/3"))
+			a.q.Insert("s", pub1(4), T0.Add(3*time.Second), a.cb("s/4"))
+			return a
+		},
+		Threads: [][]Op{
+			{{"Expire(T+2s)", func(s any) string { s.(*ackSys).q.Expire(T0.Add(2 * time.Second)); return "" }}},
+			{{"Expire(T+6s)", func(s any) string { s.(*ackSys).q.Expire(T0.Add(6 * time.Second)); return "" }}},
+			{{"Ack(s/3)", func(s any) string { return errs(s.(*ackSys).q.Ack("s", puback(3))) }}},
+		},
+		Observe: func(s any) string {
+			a := s.(*ackSys)
+			a.q.Expire(T0.Add(1000 * time.Second))
+			return sortedJoin(append([]string{}, a.log...))
+		},
+	})
 	// (7) per-session filter list
 	out = append(out, &Scenario{
 		Name: "Session: AddTopic(a);AddTopic(b) || RemoveTopic(a) || GetTopics;AddTopic(c)",
@@ -326,6 +430,13 @@ func scenarios() []*Scenario {
 		Observe: func(s any) string { return topicsOf(s.(*sessions.Session)) },
 	})
 	return out
+}
+
+func idClass(v int32) string {
+	if v < 0 || v > 4 {
+		return "none"
+	}
+	return "id"
 }
 
 func walk(t subscriptions.Tree, topic string) string {
